@@ -326,6 +326,7 @@ impl Persistable for ExtraFeaTables {
 ///
 /// See <https://learn.microsoft.com/en-us/typography/opentype/spec/glyf>
 #[derive(Debug, Clone)]
+#[cfg_attr(fontc_verif, derive(PartialEq))]
 pub struct Glyph {
     pub name: GlyphName,
     pub data: RawGlyph,
@@ -376,6 +377,7 @@ impl Persistable for Glyph {
 ///
 /// <https://learn.microsoft.com/en-us/typography/opentype/spec/gvar>
 #[derive(Serialize, Deserialize, Debug)]
+#[cfg_attr(fontc_verif, derive(PartialEq))]
 pub struct GvarFragment {
     pub glyph_name: GlyphName,
     /// None entries are safe to omit per IUP
@@ -846,6 +848,8 @@ impl PersistentStorage<AnyWorkId> for BePersistentStorage {
             .as_ref()
             .expect("Write requested with no output dir");
         let file = Paths::target_file(dir, id.unwrap_be());
+        #[cfg(fontc_verif)]
+        fontir::orchestration::verif::wfile(id, &file);
         let raw_file = File::create(file.clone())
             .map_err(|e| panic!("Unable to write {file:?} {e}"))
             .unwrap();
